@@ -36,6 +36,8 @@ def _is_complement_pair(A, t: T):
                                                                              "numpy.vstack", "numpy.hstack", "numpy.stack") and c.args[1]:
         fn = c.args[0].args[0]
         axis = dict(c.args[2]).get("axis")
+        if axis is None and fn in ("numpy.concatenate", "numpy.stack") and len(c.args[1]) > 1:
+            axis = c.args[1][1]  # axis passed by position
         # the two columns must be laid side by side: concatenate/stack of column vectors along axis 1, column_stack/hstack,
         # or rows (array / vstack / stack along 0) that are then transposed
         if fn in ("numpy.concatenate", "numpy.stack") and not transposed and axis is not const(1):
